@@ -201,10 +201,9 @@ def dsCheck (t u : Table) (f : Option Nat) (fix : List Int) : Bool :=
     | none => false) &&
   fix.all (fun i => (ids u).contains i) &&
   u.all (fun m =>
-    let tl := (rootPath t m.id).tail
-    match tl.find? (fun a => (ids u).contains a) with
+    match (rootPath t m.id).tail.find? (fun a => (ids u).contains a) with
     | none => decide (m.parent < 0)
     | some a => m.parent == a &&
-        (match f with | none => true | some k => decide (tl.idxOf a ≤ k)))
+        (match f with | none => true | some k => decide ((rootPath t m.id).tail.idxOf a ≤ k)))
 
 end Navis.Resample
